@@ -34,7 +34,15 @@ CATALOGUE_S15C = {
     'oc':  [(3, [(1, 'P')]), (6, [(1, 0)])],               # ... with a child of its own
     'r':   [(4, [(1, 'P')])],                              # the refusing one-to-one dependent (declared last)
 }
-CATALOGUES = {'S15': CATALOGUE_S15, 'S15B': CATALOGUE_S15B, 'S15C': CATALOGUE_S15C}
+CATALOGUE_S15D = {
+    'n':   [(1, [(1, 'P')])],                              # a note pointing at P: P can be reached through note.a01 without being loaded
+    'nn':  [(1, [(1, 'P')]), (1, [(1, 'P')])],
+    'pc':  [(2, [(1, 'P')])],                              # one-to-one partner cascaded from P (P's row holds the reference)
+    'pcc': [(2, [(1, 'P')]), (4, [(1, 0)])],               # ... with a child of its own
+    'pn':  [(3, [(1, 'P')])],                              # one-to-one partner whose link is cleared
+}
+CATALOGUES = {'S15': CATALOGUE_S15, 'S15B': CATALOGUE_S15B, 'S15C': CATALOGUE_S15C, 'S15D': CATALOGUE_S15D}
+MODES = ('one', 'each', 'bulk', 'mixed', 'created', 'via')
 
 
 def population(sname, names):
@@ -61,7 +69,16 @@ def history(sname, names, order, mode):
     # S15B has a reference cycle (P -> leaf -> child -> P) that cannot be inserted in one flush (C16): create one object per session there
     sessions = [ops] if sname != 'S15B' else [[op] for op in ops]
     if mode == 'created' and sname == 'S15B' and any(n == 'klb' for n in names): mode = 'one'
-    if mode == 'one':
+    if mode == 'via':
+        # one session per deletion; the object is reached through a reference held by a peer (an unloaded placeholder if the peer's row
+        # holds the reference), never through E[pk]
+        import c15_impl as I
+        peers = {}
+        for op in ops:
+            for a, y in op[3]:
+                if I.SCHEMAS[sname]['entities'][op[2]]['attrs'][a]['kind'] == 'ref': peers.setdefault(y, [op[2], op[1], a])
+        for o in order: sessions.append([['del', o, ent[o]] + ([peers[o]] if o in peers else [])])
+    elif mode == 'one':
         sessions.append([['del', o, ent[o]] for o in order])
     elif mode == 'each':
         for o in order: sessions.append([['del', o, ent[o]]])
@@ -83,6 +100,7 @@ def all_histories(sname, max_dependents, max_objects, rng=None, limit=None):
     for k in range(0, max_dependents + 1):
         for names in itertools.combinations(cat, k):
             if sname == 'S15C' and 'o' in names and 'oc' in names: continue      # one one-to-one dependent per attribute
+            if sname == 'S15D' and 'pc' in names and 'pcc' in names: continue
             ops, objs = population(sname, names)
             if len(objs) > max_objects: continue
             space.append((names, [o for o, e in objs]))
@@ -90,12 +108,12 @@ def all_histories(sname, max_dependents, max_objects, rng=None, limit=None):
     if rng is None:
         for names, hs in space:
             for order in itertools.permutations(hs):
-                for mode in ('one', 'each', 'bulk', 'mixed', 'created'):
+                for mode in MODES:
                     out.append((names, list(order), mode))
         return out
     while len(out) < limit:
         names, hs = rng.choice(space)
         order = list(hs); rng.shuffle(order)
         order = order[:rng.randint(1, len(order))]
-        out.append((names, order, rng.choice(['one', 'each', 'bulk', 'mixed', 'created'])))
+        out.append((names, order, rng.choice(list(MODES))))
     return out
